@@ -1,0 +1,50 @@
+//go:build verif
+
+// Contracts for package proxy, checked by /verif (ssovc). Comment-only file.
+package proxy
+
+// S is the session this request runs under: what LoadSession opened from the cookie.
+// R0/V0: its refresh / validity deadlines as loaded. old(clock) is the arrival instant.
+//@ func (p *OAuthProxy) Authenticate(rw http.ResponseWriter, req *http.Request) (err error)
+//@   modifies rw.$sessionCookie, rw.$saved, hdrmap(req.Header), hdrmap(rw.$hdr), clock
+//@   let S = @LoadSession#1.0
+//@   let R0 = at(@LoadSession#1, S.RefreshDeadline)
+//@   let V0 = at(@LoadSession#1, S.ValidDeadline)
+//@   ensures [C01] load: err == nil ==> called(@LoadSession#1) && @LoadSession#1.1 == nil && arg(@LoadSession#1, 1) == req
+//@   ensures [C01 C13] slug: err == nil ==> S.ProviderSlug == providerData(p.provider.tag, p.provider.pay).ProviderSlug
+//@   ensures [C01 C13] host: err == nil ==> S.AuthorizedUpstream == req.Host
+//@   ensures [C01 C04] life: err == nil ==> S.LifetimeDeadline >= old(clock)
+//@   ensures [C01 C04] refresh: err == nil && R0 < old(clock) ==> called(@RefreshSession#1) && arg(@RefreshSession#1, 1) == S && @RefreshSession#1.0 && @RefreshSession#1.1 == nil && called(@SaveSession#1) && @SaveSession#1 == nil && arg(@SaveSession#1, 3) == S
+//@   ensures [C01 C04] revalidate: err == nil && R0 >= clock && V0 < old(clock) ==> called(@ValidateSessionState#1) && arg(@ValidateSessionState#1, 1) == S && @ValidateSessionState#1 && called(@SaveSession#2) && @SaveSession#2 == nil && arg(@SaveSession#2, 3) == S
+//@   ensures [C04] lifetime_fixed: called(@LoadSession#1) && @LoadSession#1.1 == nil ==> S.LifetimeDeadline == at(@LoadSession#1, S.LifetimeDeadline)
+//@   ensures [C01 C11] rules: err == nil ==> forall i :: 0 <= i && i < len(p.Validators) ==> typeis(p.Validators[i], "validators.EmailGroupValidator") || vpass(p.Validators[i].tag, p.Validators[i].pay, S.Email)
+//@   ensures [C01 C04] clears: err != nil ==> rw.$sessionCookie == 2
+//@   ensures [C03] user_header: err == nil ==> hdrIs(req.Header, "X-Forwarded-User", S.User)
+//@   ensures [C03] email_header: err == nil ==> hdrIs(req.Header, "X-Forwarded-Email", S.Email)
+//@   ensures [C03] groups_header: err == nil ==> (("X-Forwarded-Groups" in req.Header) && len(req.Header["X-Forwarded-Groups"]) == 1)
+//@   ensures [C03] token_header: err == nil && p.upstreamConfig.PassAccessToken && S.AccessToken != "" ==> hdrIs(req.Header, "X-Forwarded-Access-Token", S.AccessToken)
+//@   loop 1
+//@     invariant forall j :: 0 <= j && j < $i ==> typeis(p.Validators[j], "validators.EmailGroupValidator") || vpass(p.Validators[j].tag, p.Validators[j].pay, S.Email)
+
+//@ func (p *OAuthProxy) IsWhitelistedRequest(req *http.Request) bool
+//@   modifies nothing
+//@   ensures [C01] skip_rule: result <==> skipAuth(p.upstreamConfig, req)
+//@   loop 1
+//@     invariant forall j :: 0 <= j && j < $i ==> !reMatch(p.upstreamConfig.SkipAuthCompiledRegex[j], req.URL.Path)
+
+// The sink: handing the request to the upstream handler. `authn` = Authenticate ran for this request
+// and returned nil; the skip-auth rule is evaluated on the request as it arrived.
+//@ func (p *OAuthProxy) Proxy(rw http.ResponseWriter, req *http.Request)
+//@   let authn = called(@Authenticate#1) && @Authenticate#1 == nil && arg(@Authenticate#1, 1) == rw && arg(@Authenticate#1, 2) == req
+//@   sink [C01] mediated: ServeHTTP requires $arg1 == req && (old(skipAuth(p.upstreamConfig, req)) || authn)
+//@   sink [C03] identity_kept: ServeHTTP requires authn ==> req.Header["X-Forwarded-User"] == at(@Authenticate#1, req.Header["X-Forwarded-User"]) && req.Header["X-Forwarded-Email"] == at(@Authenticate#1, req.Header["X-Forwarded-Email"]) && req.Header["X-Forwarded-Groups"] == at(@Authenticate#1, req.Header["X-Forwarded-Groups"]) && req.Header["X-Forwarded-Access-Token"] == at(@Authenticate#1, req.Header["X-Forwarded-Access-Token"])
+//@   ensures [C01] no_upstream_unless_mediated: called(@ServeHTTP#1) ==> old(skipAuth(p.upstreamConfig, req)) || authn
+
+//@ func (p *OAuthProxy) AuthenticateOnly(rw http.ResponseWriter, req *http.Request)
+//@   requires fresh_response: rw.$status == 0
+//@   ensures [C01] accepted_only_with_session: rw.$status == 202 ==> called(@Authenticate#1) && @Authenticate#1 == nil
+
+//@ func (p *OAuthProxy) Favicon(rw http.ResponseWriter, req *http.Request)
+//@   requires fresh_response: rw.$status == 0
+//@   ensures [C01] favicon_needs_session: called(@Proxy#1) ==> called(@Authenticate#1) && @Authenticate#1 == nil
+//@   ensures [C01] favicon_404: (called(@Authenticate#1) && @Authenticate#1 != nil) ==> rw.$status == 404 && !called(@Proxy#1)
